@@ -86,4 +86,30 @@ theorem C07_source_store_map_copies :
        "return byteutils.ConcatBytes(value), true"] := by
   decide
 
+open Hive.Gen.C07SrcMapdb Hive.Gen.C07SrcSynced in
+/-- What the other users of the store can do to the map (`Hive.Seq.KV.apply`): `Delete` removes exactly realm ++ key,
+`DeletePrefix` exactly the full keys with prefix realm ++ prefix, `Clear` exactly those with prefix realm, a committed
+batch applies its sets and then its deletes through the same `set` / `delete`. -/
+theorem C07_source_store_map_ops :
+    src_mapDB_Delete =
+      ["if s.closed.Load() {", "return kvstore.ErrStoreClosed", "}", "s.Lock()", "defer s.Unlock()", "return s.delete(key)"] ∧
+    src_mapDB_delete = ["s.m.delete(byteutils.ConcatBytes(s.realm, key))", "return nil"] ∧           -- `.delete r k`: x = r ++ k
+    src_mapDB_DeletePrefix =
+      ["if s.closed.Load() {", "return kvstore.ErrStoreClosed", "}", "s.Lock()", "defer s.Unlock()",
+       "s.m.deletePrefix(byteutils.ConcatBytes(s.realm, prefix))", "return nil"] ∧                 -- `.deletePrefix r p`: (r ++ p).isPrefixOf x
+    src_mapDB_Clear =
+      ["if s.closed.Load() {", "return kvstore.ErrStoreClosed", "}", "s.Lock()", "defer s.Unlock()",
+       "s.m.deletePrefix(s.realm)", "return nil"] ∧                                                -- `.clear r`: r.isPrefixOf x
+    src_syncedKVMap_delete = ["s.Lock()", "defer s.Unlock()", "delete(s.m, string(key))"] ∧
+    src_syncedKVMap_deletePrefix =
+      ["s.Lock()", "defer s.Unlock()", "prefix := string(keyPrefix)", "for key := range s.m {",
+       "if strings.HasPrefix(key, prefix) {", "delete(s.m, key)", "}", "}"] ∧
+    src_batchedMutations_Commit =
+      ["if b.closed.Load() {", "return kvstore.ErrStoreClosed", "}",
+       "b.Lock()", "b.kvStore.Lock()", "defer b.kvStore.Unlock()", "defer b.Unlock()",
+       "for key, value := range b.setOperations {", "err := b.kvStore.set([]byte(key), value)", "if err != nil {", "return err", "}", "}",   -- `setAll`
+       "for key := range b.deleteOperations {", "err := b.kvStore.delete([]byte(key))", "if err != nil {", "return err", "}", "}",        -- `delAll`
+       "return nil"] := by
+  refine ⟨by decide, by decide, ?_, by decide, by decide, ?_, ?_⟩ <;> rfl
+
 end Hive.Seq.Layered
